@@ -306,8 +306,8 @@ def _added_only_requested(c):
     path = c.h0.get("HashFileDB.path", c.self)
     return And(lfiles(c.h0).subset(lfiles(c.h)),
                SV(z3.ForAll([o.t], Implies(And(lfiles(c.h).contains(O(path, o)), Not(lfiles(c.h0).contains(O(path, o)))), _req(c, o)).t), TBool),
-               # what is placed carries the source's bytes, which hash to the id it is filed under (Named, the caller's obligation)
-               SV(z3.ForAll([o.t], Implies(And(lfiles(c.h).contains(O(path, o)), Not(lfiles(c.h0).contains(O(path, o)))),
+               # what is placed carries the source's bytes; IF those hash to the id it is filed under (Named), the new object is intact
+               SV(z3.ForAll([o.t], Implies(And(_named(c), lfiles(c.h).contains(O(path, o)), Not(lfiles(c.h0).contains(O(path, o)))),
                                            first(cur(c.h0.get("HashFileDB.fs", c.self), c.h0.get("HashFileDB.hash_name", c.self), O(path, o))) == first(o)).t), TBool),
                # copies (no hard links) arrive unprotected; protection of everything else is untouched
                Implies(Not(c.hardlink), SV(z3.ForAll([o.t], (l444(c.h).contains(O(path, o)) == l444(c.h0).contains(O(path, o))).t), TBool)))
@@ -366,7 +366,7 @@ def _present_ok(c):
 
 
 def _loop_pre(c):  # `for o in oids: check(o)` before the copy
-    return And(crash_inv(c), _sinv(c), _present_ok(c), lfiles(c.h).subset(lfiles(c.h0)))
+    return And(crash_inv(c), _sinv(c), Or(_verify0(c), _present_ok(c)), lfiles(c.h).subset(lfiles(c.h0)))
 
 
 def _loop_post(c):  # `for o, cache_path in oid_cache_paths.items()`: check then protect
@@ -379,7 +379,7 @@ def _loop_post(c):  # `for o, cache_path in oid_cache_paths.items()`: check then
                        patterns=[c.oid[j].t]), TBool)
     same = SV(z3.ForAll([j.t], Implies(And(j >= 0, j < c.oid.length()), And(K[j] == c.oid[j], c.loc.oid_cache_paths[c.oid[j]] == O(path, c.oid[j].val))).t,
                        patterns=[c.oid[j].t, K[j].t]), TBool)
-    return And(crash_inv(c), _sinv(c), _present_ok(c), done)
+    return And(crash_inv(c), _sinv(c), Or(_verify0(c), _present_ok(c)), done)
 
 
 def _all_some(K):
@@ -400,6 +400,17 @@ def _hint_path(c):
     return And(c.loc.cache_path == pth,
                # ... and that object, if it is (or gets) write-protected, is intact or was protected before the call
                Or(c.hardlink, Not(lift(c.engine.truth(c.loc.verify), TBool)), _good_o(c, c.loc.o.val), l444(c.h0).contains(pth)))
+
+
+def _verify0(c):
+    """the verify flag in force (entry state)"""
+    present, kv = c.kwargs.items["verify"]
+    return Ite(And(SV(present, TBool), kv.is_some), kv.val, c.h0.get("HashFileDB.verify", c.self))
+
+
+def _verify_on(c):
+    present, kv = c.kwargs.items["verify"]
+    return Ite(And(SV(present, TBool), kv.is_some), kv.val, c.h.get("HashFileDB.verify", c.self))
 
 
 def _add_post(c):
@@ -426,8 +437,9 @@ contract(
     requires=lambda c: And(
         c.path.length() == c.oid.length(),
         _all_some(c.oid),
-        # Named (content addressing): every object is filed under the digest of the bytes at the path it is copied from
-        _named(c),
+        # Named (content addressing): every object is filed under the digest of the bytes at the path it is copied from --
+        # or the store verifies what it receives (the verify clause of C07 quantifies over corrupt sources)
+        Or(_named(c), _verify_on(c)),
     ),
     raises={"NotImplementedError": (None, None)},
     modifies=lambda c: [("G.lfiles",), ("G.l444",), ("HashFileDB.objs", c.self), ("FileSystem.files", None), ("FileSystem.removed", None), ("HashesCache.table", None)],
@@ -438,7 +450,7 @@ contract(
     ensures=_add_post,
     # the body is verified for duplicate-free id lists (a dict comprehension keyed by the ids collapses duplicates; callers are
     # not asked to establish this: recorded restriction)
-    entry_assume=lambda c: And(_distinct_ids(c), O_injective(), _local(c), _sinv(c), _wf_requested(c)),
+    entry_assume=lambda c: And(_distinct_ids(c), O_injective(), _local(c), _sinv(c), Or(_wf_requested(c), _verify_on(c))),
     props=["C07", "C15", "C01"],
     doc="order inside add: pre-copy check, copy, post-copy check, protect, then state rows; a mismatching object is never "
         "write-protected (crash condition after every mutating call) and, under verify, never retained",
